@@ -317,7 +317,8 @@ def random_program(rng, length, classes):
 
         def kids_for(c):
             if c == "LUnary":
-                return [rng.choice(H)] if H else None
+                # prefer the newest node: chains get deep
+                return [H[-1] if rng.random() < 0.7 else rng.choice(H)] if H else None
             if c == "LOpt":
                 leafs = [h for h in H if cls[h - 1] in ("LLeaf", "LSub")]
                 return [rng.choice(leafs)] if leafs and rng.random() < 0.6 else []
@@ -429,7 +430,7 @@ def run(chk: core.Check, pid: str, classify):
     chk.replayed += len(raws)
     sink, strays = collect(chk, core.parallel(_exec, raws, {}, chunk=400))
     rng = random.Random(chk.seed + 61)
-    seeds = [rng.randrange(1 << 30) for _ in range(3000 if quick else 60000)]
+    seeds = [rng.randrange(1 << 30) for _ in range(6000 if quick else 60000)]
     s2, st2 = collect(chk, core.parallel(_exec_random, seeds, {"length": 12}, chunk=100))
     for k, v in s2.items():
         sink.setdefault(k, v)
